@@ -192,11 +192,25 @@ class LayoutCtx:
             cls_.light_cache[name] = self
         return cls_.light_cache[name]
 
+    def fresh(self):
+        """A fresh `HOADecoderDesign(layout.without_lfe)` built with NO option argument: its norm_mean_power / maxRE /
+        maxRE_scale are the code's own defaults (design.py `Option(default=...)`), not values typed in this harness."""
+        if getattr(self, "_fresh", None) is None:
+            from ear.core.scenebased.design import HOADecoderDesign
+
+            self._fresh = HOADecoderDesign(self.layout.without_lfe)
+        return self._fresh
+
     def designer(self, opts=None, subset=None):
         """The real design object with other option values and/or a sub-sampled virtual-loudspeaker set (the real
-        `design` method runs unchanged; only the attributes init_slow/`__init__` would have set are replaced)."""
+        `design` method runs unchanged; only the attributes init_slow/`__init__` would have set are replaced).
+        `opts=None` = DEFAULT options: the three option attributes are those of a fresh HOADecoderDesign(layout)
+        (the code's own defaults); only points/G_virt are shared with the initialised design object."""
         d = copy.copy(self.dd)
-        if opts:
+        if opts is None:
+            f = self.fresh()
+            d.norm_mean_power, d.maxRE, d.maxRE_scale = f.norm_mean_power, f.maxRE, f.maxRE_scale
+        else:
             d.norm_mean_power, d.maxRE, d.maxRE_scale = opts["nmp"], opts["maxRE"], opts["scale"]
         if subset is not None:
             d.points = self.dd.points[subset]
@@ -240,7 +254,14 @@ def zero_patterns(rng, chans):
     return pats
 
 
+# label of the "default options" cases only: the real calls of those cases go through designer(None) (a fresh
+# HOADecoderDesign's own defaults) and `_corr_defaults` compares the code's defaults with this label and with ({} : Opts)
 DEFAULT_OPTS = dict(nmp=True, maxRE=False, scale="none")
+
+
+def real_opts(opts):
+    """what to hand to LayoutCtx.designer: None (= the code's own defaults) for the default-options cases"""
+    return None if opts == DEFAULT_OPTS else opts
 
 
 def opts_key(o):
@@ -343,6 +364,7 @@ class C11(Spec):
             "designPack_perm",
             "designPack_same_signals",
             "nonDegenerate_pack",
+            "fo_nonDegenerate",  # instance: NonDegenerate on the first-order pack / octahedron / 2x6 G (non-vacuity beyond the toys)
             "degree_gt_order_degenerate",
             "normBy_pos",
             "normDefined_iff",
@@ -407,7 +429,8 @@ class C11(Spec):
         "virtual point set) - compared twice: Lean `design` fed the captured Y_virt/norm vectors, and Lean `designPack` fed "
         "only G_virt and the point directions; channel lists: full / horizontal-only / random partial sets of orders 0..5 "
         "(FuMa 0..3), rotated/shuffled so that every (order,|degree|) class comes first; plus hoa.norm_* on every rotation "
-        "of every list (and on lists with |degree| > order), hoa.sph_harm per (n, m, direction), to_acn/from_acn, routing "
+        "of every list (and on lists with |degree| > order), hoa.sph_harm per (n, m, direction), to_acn/from_acn, the default "
+        "options of a fresh HOADecoderDesign vs ({} : Opts), routing "
         "and one rendered frame per routed case, and two packs x 4-6 plane-wave frames rendered through the real HOARenderer "
         "on each of the ten layouts (400-point virtual loudspeaker set); non-trivial = at least 2 channels and not muted; distinct by all of the above"
     )
@@ -425,6 +448,7 @@ class C11(Spec):
 
         rows = {c: [] for c in CONVS}
         fac = []
+        not_rational = []
         for conv in CONVS:
             for n in range(max_order(conv) + 1):
                 for m in range(n + 1):
@@ -434,6 +458,7 @@ class C11(Spec):
                     except ValueError:
                         # keep the table total so that the positivity obligation reports the entry
                         fr = Fraction(float(x) * float(x)).limit_denominator(10 ** 7)
+                        not_rational.append("norm_%s(%d,%d) = %r" % (conv, n, m, x))
                         ctx.notes.append("extract: norm_%s(%d,%d) = %r is not the square root of a small rational" % (conv, n, m, x))
                     rows[conv].append((n, m, fr.numerator, fr.denominator))
                     if conv == "FuMa":
@@ -473,6 +498,10 @@ class C11(Spec):
             ]
         )
         write_if_changed(os.path.join(GEN, "C11_Tables.lean"), text)
+        # no silent fallback: an entry whose square is not recovered exactly makes the tables approximate
+        ctx.obligation("extract:norm-squares-exact-rationals", not not_rational,
+                       "every norm_* value squared is a rational with denominator <= 10^7 (re-checked by sqrt to 1e-15)" if not not_rational
+                       else "not the square root of a small rational (table entry is an approximation): " + "; ".join(not_rational[:6]))
         ctx.count("extract:norm entries", sum(len(v) for v in rows.values()))
         ctx.count("extract:acn entries", len(from_rows) + len(to_rows))
 
@@ -511,6 +540,7 @@ class C11(Spec):
         self._corr_norms_beyond(ctx, driver, vals)
         self._corr_sph(ctx, driver)
         self._corr_acn(ctx, driver)
+        self._corr_defaults(ctx, driver)
         self._corr_render_all(ctx, driver)
         if ctx.quick:
             for name in self._layouts(ctx):
@@ -663,6 +693,36 @@ class C11(Spec):
             else:
                 ctx.disagree("hoa.sph_harm vs Earverif.Hoa.sphHarm", {"norm": conv, "n": c[0], "m": c[1], "az": d[0], "el": d[1]}, got if got is not None else o, want)
 
+    def _corr_defaults(self, ctx, driver):
+        """'with default options': the option attributes of a FRESH HOADecoderDesign(layout) (and of the design object a
+        default HOARenderer builds) vs the model's `({} : Opts)` printed by the driver, and vs the label DEFAULT_OPTS the
+        harness uses to decide which cases get the unit-mean-power predicate."""
+        from ear.core import bs2051
+        from ear.core.scenebased.design import HOADecoderDesign
+        from ear.core.scenebased.renderer import HOARenderer
+
+        model = driver.run(["defaults"])[0]
+        layout = bs2051.get_layout("0+5+0")
+
+        def show(d):
+            return "%s %s %s" % ({True: "1", False: "0"}.get(d.norm_mean_power, repr(d.norm_mean_power)),
+                                 {True: "1", False: "0"}.get(d.maxRE, repr(d.maxRE)), d.maxRE_scale)
+
+        for what, mk in (("HOADecoderDesign(layout)", lambda: HOADecoderDesign(layout.without_lfe)),
+                         ("HOARenderer(layout)._decoder_design", lambda: HOARenderer(layout)._decoder_design)):
+            ok, d = guarded(ctx, what, {"layout": "0+5+0"}, mk)
+            if not ok:
+                continue
+            impl = show(d)
+            ctx.case(("defaults", what), True, sample={"default options of": what, "norm_mean_power maxRE maxRE_scale": impl})
+            ctx.count("defaults:compared")
+            label = "%d %d %s" % (DEFAULT_OPTS["nmp"], DEFAULT_OPTS["maxRE"], DEFAULT_OPTS["scale"])
+            if impl == model and impl == label:
+                ctx.validated()
+            else:
+                ctx.disagree("default options of %s vs the model's ({} : Opts) / the harness label DEFAULT_OPTS" % what,
+                             {"layout": "0+5+0"}, {"({} : Opts)": model, "DEFAULT_OPTS": label}, impl)
+
     def _corr_acn(self, ctx, driver):
         from ear.core import hoa
 
@@ -718,7 +778,9 @@ class C11(Spec):
             else:
                 P = ctx.rng.randint(max(2, len(lst)), 160)
                 subset = np.array(sorted(ctx.rng.sample(range(P_all), P)))
-            d = lc.designer(opts, subset)
+            d = lc.designer(real_opts(opts), subset)  # default-options cases: the code's OWN defaults (fresh HOADecoderDesign)
+            if real_opts(opts) is None:
+                ctx.count("design:default options taken from a fresh HOADecoderDesign")
             meta = make_meta(lst, conv, gains, og, mute)
             # capture the matrices the real call computes
             calls = []
@@ -1094,7 +1156,7 @@ class C11(Spec):
                     if excluded(opts, chans):
                         ctx.count("excluded:maxRE scale=order on an order-0 pack")
                         continue
-                    d = lc.designer(opts)
+                    d = lc.designer(real_opts(opts))  # defaults: those of a fresh HOADecoderDesign(layout), not hand-typed
                     default = opts == DEFAULT_OPTS
                     signals = {}
                     for conv in CONVS:
@@ -1218,9 +1280,22 @@ REGISTRY = dict(
     "non-zero norm factors and a non-zero entry of G·Yᵀ): design_perm (permuting channels permutes decoder columns, incl. "
     "per-order maxRE weights), design_norm_invariant / design_same_signals (decoder·diag(nrm) is the same for any two non-zero "
     "conventions), design_linear_in_gains, design_mute_zero, design_unit_mean_power(_nmp) (mean over the code's P sample "
-    "points = 1). Concrete layer (designPack: norm_N3D/SN3D/FuMa, sph_harm -> Y_virt/K_v, allrad, maxRE, mean power, gains "
+    "points = 1; 'default options' = the model's ({} : Opts), which the driver op `defaults` prints and the correspondence "
+    "compares with the attributes of a fresh HOADecoderDesign(layout) and of HOARenderer(layout)._decoder_design on every "
+    "run; every default-options case of correspondence and search calls the real design with the code's OWN defaults - "
+    "designer(None) - so a changed Option(default=...) in design.py breaks the tie and the unit-mean-power predicate). Concrete layer (designPack: norm_N3D/SN3D/FuMa, sph_harm -> Y_virt/K_v, allrad, maxRE, mean power, gains "
     "all inside; only G_virt, the point directions and the maxRE table are parameters): designPack_perm, "
-    "designPack_same_signals (N3D, SN3D, FuMa give identical loudspeaker signals) for packs with |degree| <= order; "
+    "designPack_same_signals (N3D, SN3D, FuMa give identical loudspeaker signals) for packs with |degree| <= order - both "
+    "under the explicit hypothesis `hnd` (for the norm vector of the pack's convention, NonDegenerate o G (yVirt ord deg az el) "
+    "(n3dVec ord deg) nrm ord coef: no denominator of the computation is zero); nonDegenerate_pack derives hnd from P != 0, "
+    "independent rows of Y_virt and a non-zero weighted entry of G·Yᵀ, and is instantiated in Lean on small packs only "
+    "(2x2x2 toys and fo_nonDegenerate: the first-order pack (0,0),(1,-1),(1,0),(1,1) on the six octahedron directions with a "
+    "2x6 G, conventions N3D/SN3D/FuMa, default options and maxRE + norm_mean_power) - that NonDegenerate holds on the REAL data "
+    "(t-design, real G_virt, every pack of the quantifier) is evidenced by the finiteness search on every run, not proved. "
+    "normVec / n3dVec / yVirt are Vector.ofFn / Mat.ofFn of a per-channel function, so order-independence of the ELEMENT-WISE "
+    "evaluation of norm_* and sph_harm is a property of the MODEL (true by construction); the real norm_* on rotated/shuffled "
+    "arrays is tied to it by _corr_norms (every rotation + random permutations of every channel list, exact equality across "
+    "orders) and sph_harm by _corr_sph on shuffled channel arrays. "
     "norms_pos, norms_sq, tables_match_model / tables_normBy_sq (the code's norm values, orders 0..5, FuMa 0..3, squared = "
     "normBy squared), table_acn_inverse (ACN 0..35); spherical harmonics: alegendre_closed (orders 0..3), sphHarm_pair, "
     "unsold_sn3d / unsold_n3d (sum over m of Y_nm^2 = 1 resp. 2n+1 at every direction, orders 0..3), sphHarm_first_order "
@@ -1237,7 +1312,9 @@ REGISTRY = dict(
     "select_rendering_items) and reaches the decoder: norm_N3D = norm_SN3D = 0 there (norms_zero_of_gt, corresponded) and the "
     "decoder is all-NaN (degree_gt_order_degenerate: NonDegenerate fails) - recorded finding `degree-exceeds-order`, "
     "reproduced on every run (evidence note), reported as KNOWN-FINDING once listed.",
-    note="Trusted: Lean kernel, hand transliteration + correspondence harness (1e-9 design, 1e-12 sph_harm, 1e-14 norms), "
+    note="to_acn/from_acn (table_acn_inverse, acn correspondence, the translated kernels of C11) are used by "
+    "cmdline/ambix_to_bwf.py only: they cover no mechanism of this property (the decoder works on (order, degree) pairs). "
+    "Trusted: Lean kernel, hand transliteration + correspondence harness (1e-9 design, 1e-12 sph_harm, 1e-14 norms), "
     "scipy lpmv/factorial modelled in closed form, panner / t-design / Legendre maxRE table as parameters. Excluded: "
     "maxRE_scale='order' on an order-0 pack (all-zero decoder, 0/0); packs with |degree| > order (recorded finding).",
     technique="Lean 4 algebraic proofs over ℝ on a scalar-polymorphic model (run on Float) + closed-form spherical harmonics "
